@@ -49,8 +49,12 @@ RULES = {
     "unpacking helper (unpack_4bitx2 / unpack_2bitx4: one element per byte) holds *decoded* data; tobytes()/tofile() of that class "
     "do not produce their bytes from that field (`self.<field>.tobytes()` …) unless they pack again - for 2- and 4-bit types the "
     "decoded array has size, not ceil(size x bitwidth / 8), bytes, so the result depends on whether numpy() was called before",
+    "R14": "numpy() keeps the declared rank: in numpy() / __array__ of every tensor class, the returned array does not pass through a "
+    "numpy routine that changes the number of dimensions for some inputs (ascontiguousarray / asfortranarray / atleast_nd turn a "
+    "0-d array into shape (1,); squeeze, ravel, flatten, expand_dims) unless a reshape to the declared shape is the last step - "
+    "a scalar tensor would report shape () and hand out an array of shape (1,)",
 }
-FLOORS = {"R1": 120, "R2": 4, "R3": 8, "R4": 1, "R5": 6, "R6": 20, "R7": 30, "R8": 4, "R9": 2, "R10": 1, "R11": 1, "R12": 3, "R13": 1}
+FLOORS = {"R1": 120, "R2": 4, "R3": 8, "R4": 1, "R5": 6, "R6": 20, "R7": 30, "R8": 4, "R9": 2, "R10": 1, "R11": 1, "R12": 3, "R13": 1, "R14": 8}
 EXPLANATION = (
     "Evaluates the enum and table literals of _enums/_core/tensor_adapters with ast only and compares them with "
     "each other; derives the sub-byte classes from _BITWIDTH_MAP and checks every storage guard, packing-helper "
@@ -949,7 +953,62 @@ def rule_r13(ctx):
     ctx.require(n >= 1, "no tensor class with an unpacked cache and a tobytes/tofile method found")
 
 
+_RANK_CHANGERS = {"ascontiguousarray", "asfortranarray", "atleast_1d", "atleast_2d", "atleast_3d", "squeeze", "ravel", "flatten", "expand_dims",
+                  "concatenate", "stack", "hstack", "vstack"}
+_R14_EXAMPLE = """
+def numpy(self):
+    bits = self.raw.view(torch.uint8).numpy(force=True)
+    return np.ascontiguousarray(bits).view(self.dtype.numpy())
+"""
+
+
+def _rank_changing_calls(fn_node, ret_value):
+    """Calls of rank-changing numpy routines the returned expression passes through (locals read once through their assignments)."""
+    exprs, seen = [ret_value], set()
+    for _ in range(3):
+        for e in list(exprs):
+            for x in ast.walk(e):
+                if isinstance(x, ast.Name) and x.id not in seen:
+                    seen.add(x.id)
+                    for a in ast.walk(fn_node):
+                        if isinstance(a, ast.Assign) and any(isinstance(t, ast.Name) and t.id == x.id for t in a.targets):
+                            exprs.append(a.value)
+    out = []
+    for e in exprs:
+        for x in ast.walk(e):
+            if isinstance(x, ast.Call):
+                name = x.func.attr if isinstance(x.func, ast.Attribute) else (x.func.id if isinstance(x.func, ast.Name) else "")
+                if name in _RANK_CHANGERS:
+                    out.append(x)
+    return out
+
+
+def rule_r14(ctx):
+    ex = ast.parse(_R14_EXAMPLE).body[0]
+    ret = next(x for x in ast.walk(ex) if isinstance(x, ast.Return))
+    ctx.require(bool(_rank_changing_calls(ex, ret.value)), "R14: the built-in positive example is not recognised")
+    n = 0
+    for m in ctx.repo.pkg_modules():
+        for k in m.classes.values():
+            for name in ("numpy", "__array__"):
+                f = k.methods.get(name)
+                if f is None or isinstance(f.node, ast.Lambda):
+                    continue
+                for r in (x for x in own_nodes(f.node) if isinstance(x, ast.Return) and x.value is not None):
+                    n += 1
+                    v = r.value
+                    reshaped = isinstance(v, ast.Call) and isinstance(v.func, ast.Attribute) and v.func.attr == "reshape"
+                    bad = [] if reshaped else _rank_changing_calls(f.node, v)
+                    ctx.check("R14", f"{f.local}: `{norm(r)[:60]}` keeps the number of dimensions", not bad, f, bad[0] if bad else r,
+                              f"`{norm(bad[0])[:70] if bad else ''}` can change the number of dimensions (a 0-d array becomes shape (1,), or axes are dropped / merged) and no "
+                              "reshape to the declared shape follows: a scalar tensor of this class reports shape () and hands out an array of another shape",
+                              how="returned expression (through its locals) is free of ascontiguousarray / atleast_nd / squeeze / ravel / flatten / expand_dims, or ends in .reshape(…)",
+                              construct=f"rank-changing {norm(bad[0].func)[:40] if bad else ''} in {name}")
+    ctx.require(n >= 8, f"only {n} return statements of numpy() / __array__ found in tensor classes")
+
+
 def run(ctx):
+    rule_r14(ctx)
     rule_r13(ctx)
     rule_r12(ctx)
     rule_r11(ctx)
